@@ -69,4 +69,18 @@ def deckExpected : List DeckRec → Nat → List (Nat × DeckInfo)
   | [], _ => []
   | r :: rs, i => if r.isValid then (i, r.info i) :: deckExpected rs (i + 1) else deckExpected rs (i + 1)
 
+/-! ### loco positioning memory, as the firmware (locoMemory / lpsTdoa) serves it -/
+
+/-- one anchor page: position as three float32 and the valid flag -/
+def Anchor.encode (a : Anchor) : List UInt8 :=
+  leBytes 4 a.pos.x ++ (leBytes 4 a.pos.y ++ (leBytes 4 a.pos.z ++ [if a.valid then 1 else 0]))
+
+def Anchor.WF (a : Anchor) : Prop := a.pos.x < 2 ^ 32 ∧ a.pos.y < 2 ^ 32 ∧ a.pos.z < 2 ^ 32
+
+/-! ### write-only images as the firmware reads them -/
+
+/-- `struct poly4d { float p[4][8]; float duration; }`: 33 consecutive little-endian floats -/
+def poly4dLayout (x y z yaw : List Nat) (duration : Nat) : List UInt8 :=
+  ((x ++ y ++ z ++ yaw ++ [duration]).map (leBytes 4)).flatten
+
 end CfVerif.C14
